@@ -629,20 +629,18 @@ def run(rep):
 
 
 def short_sequences(rep, cases, results, metas):
-    """fewer than four entries: IndexError (model: Raised)"""
+    """fewer than four entries is invalid input outside the property's scope: which exception is
+    raised (IndexError today; the model says Raised "IndexError") is only counted"""
     arr = G.make_array('point', [[1, 2], [3, 4]], 'float64')
-    bounds = np.asarray(arr.bounds).tolist()
-    total = [float(v) for v in arr.total_bounds]
     for obj in ([], [0.0, 0.0, 1.0], (0.0,), np.array([0.0, 1.0])):
         res, exc, unchanged = call_impl(arr, obj, 4)
         rep.evaluations += 1
-        s = 1
-        cases.append(model_case(arr, bounds, total, obj, 4, s))
-        results.append((C.Rec('Raised', exc) if exc else
-                        C.Rec('Returned', [C.Some(U.NN(d)) for d in res]), seq_term(obj, s)))
-        metas.append({'kind': 'point', 'subtype': 'float64', 'elements': [[1, 2], [3, 4]],
-                      'derivation': [], 'tb_label': 'short', 'tb_form': type(obj).__name__,
-                      'tb_values': [float(v) for v in obj], 'p': 4, 'impl': exc or res})
+        rep.count(f'optional:short_total_bounds:{exc or "accepted"}')
+        if not unchanged:
+            rep.violation('argument-modified', 'hilbert_distance modified the caller\'s total_bounds',
+                          {'kind': 'point', 'subtype': 'float64', 'elements': [[1, 2], [3, 4]],
+                           'derivation': [], 'tb_label': 'short', 'tb_form': type(obj).__name__,
+                           'tb_values': [float(v) for v in obj], 'p': 4, 'after': repr(obj)})
 
 
 def check_cells(rep, meta, bounds, tbvals, p, res, tag, mask):
